@@ -113,12 +113,13 @@ theorem schema_ok (top : Top) (htop : top ∈ Gen.Schema.all) (ver : Int) (h0 : 
 
 /-- The round trip for every request / response / `not top level` definition of the current tree at every supported version
 (definitions read with the version as a parameter; `RecordBatch`'s trailing `length-field-minus` bytes and the types that carry
-their own `Version` field go through `decTop`'s extra plumbing, which is exercised differentially). -/
+their own `Version` field go through `decTop`'s extra plumbing and the hand-written `StickyMemberMetadata` through `decSticky`;
+those are exercised differentially). -/
 theorem roundtrip_generated (top : Top) (htop : top ∈ Gen.Schema.all) (hraw : top.raw = none) (hwv : top.withVersion = false)
-    (ver : Int) (h0 : 0 ≤ ver) (h1 : ver ≤ top.maxVersion) (v : Val) (bs rest : Bytes)
+    (hname : (top.name == "StickyMemberMetadata") = false) (ver : Int) (h0 : 0 ≤ ver) (h1 : ver ≤ top.maxVersion) (v : Val) (bs rest : Bytes)
     (h : enc ver false top.ty v = some bs) :
     decTop top ver (bs ++ rest) = .ok (canon ver top.ty v) rest := by
-  simp only [decTop, hwv, hraw, Bool.false_eq_true, if_false]
+  simp only [decTop, hname, hwv, hraw, Bool.false_eq_true, if_false]
   exact roundtrip top.ty { ver := ver, cap := (bs ++ rest).length } false v bs rest h0 (schema_ok top htop ver h0 h1) h
     (by simp)
 
